@@ -418,24 +418,25 @@ class NFANode(object):
     transitions : {symbol: set([:py:class:`NFANode`, ...]), ...}
         The transition rules from this node.
 
-        Empty transitions are listed under the symbol ``None`` and are always
-        bidirectional.
+        Empty transitions are listed under the symbol ``None``.
     """
 
     def __init__(self):
         self.transitions = defaultdict(set)
 
-    def add_transition(self, dest_node, symbol=None):
+    def add_transition(self, dest_node, symbol=None, bidirectional=True):
         """
         Add a transition rule from this node to the specified destination.
 
-        If no symbols are specified, a (bidirectional) empty transition between
-        the two nodes will be added.
+        If no symbols are specified, an empty transition between the two nodes
+        will be added. By default this empty transition is bidirectional. If
+        'bidirectional' is False, the empty transition will only lead from this
+        node to 'dest_node' (as required by Thompson's constructions).
         """
         if symbol is None:
-            # Empty transitions should be bidirectional
             self.transitions[symbol].add(dest_node)
-            dest_node.transitions[symbol].add(self)
+            if bidirectional:
+                dest_node.transitions[symbol].add(self)
         else:
             self.transitions[symbol].add(dest_node)
 
@@ -489,6 +490,10 @@ class NFA(object):
         Convert a regular expression AST node into a new :py:class:`NFA` object
         using `Thompson's constructions
         <https://en.wikipedia.org/wiki/Thompson%27s_construction>`_.
+
+        NB: The empty transitions in these constructions are directional. (If
+        they were bidirectional, e.g. ``a?`` would behave like ``a*`` and
+        ``(a* | b*)`` like ``(a | b)*``.)
         """
         if ast is None:
             node = NFANode()
@@ -502,7 +507,7 @@ class NFA(object):
             nfa_a = cls.from_ast(ast.a)
             nfa_b = cls.from_ast(ast.b)
 
-            nfa_a.final.add_transition(nfa_b.start)
+            nfa_a.final.add_transition(nfa_b.start, bidirectional=False)
 
             return cls(nfa_a.start, nfa_b.final)
         elif isinstance(ast, Symbol):
@@ -515,11 +520,11 @@ class NFA(object):
             nfa_a = cls.from_ast(ast.a)
             nfa_b = cls.from_ast(ast.b)
 
-            nfa.start.add_transition(nfa_a.start)
-            nfa.start.add_transition(nfa_b.start)
+            nfa.start.add_transition(nfa_a.start, bidirectional=False)
+            nfa.start.add_transition(nfa_b.start, bidirectional=False)
 
-            nfa_a.final.add_transition(nfa.final)
-            nfa_b.final.add_transition(nfa.final)
+            nfa_a.final.add_transition(nfa.final, bidirectional=False)
+            nfa_b.final.add_transition(nfa.final, bidirectional=False)
 
             return nfa
         elif isinstance(ast, Star):
@@ -527,11 +532,11 @@ class NFA(object):
 
             sub_nfa = cls.from_ast(ast.expr)
 
-            nfa.start.add_transition(nfa.final)
-            nfa.start.add_transition(sub_nfa.start)
+            nfa.start.add_transition(nfa.final, bidirectional=False)
+            nfa.start.add_transition(sub_nfa.start, bidirectional=False)
 
-            sub_nfa.final.add_transition(sub_nfa.start)
-            sub_nfa.final.add_transition(nfa.final)
+            sub_nfa.final.add_transition(sub_nfa.start, bidirectional=False)
+            sub_nfa.final.add_transition(nfa.final, bidirectional=False)
 
             return nfa
 
